@@ -122,13 +122,10 @@ namespace nmtools::index
             auto normalize_roll_index = [](nm_index_t index, const auto axis) -> nm_index_t
             #endif
             {
-                if (index < 0) {
-                    return axis + index;
-                } else if ((nm_index_t)index >= (nm_index_t)axis) {
-                    return index - axis;
-                } else {
-                    return index;
-                }
+                // wrap around for shift of any sign and magnitude (python-style modulo)
+                auto extent  = (nm_index_t)axis;
+                auto wrapped = (nm_index_t)(index % extent);
+                return (wrapped < 0) ? (wrapped + extent) : wrapped;
             };
 
             if constexpr (is_none_v<axis_t>) {
